@@ -115,3 +115,15 @@ Print Assumptions C13_comparisons_in_fragment.
 Theorem C13_repaired_witnesses : repaired_texts.
 Proof. exact repaired_texts_hold. Qed.
 Print Assumptions C13_repaired_witnesses.
+
+(* select('*', ...) / table stars: the select list that GROUP BY / ORDER BY look the alias up in is [normalize_sel] of the
+   arguments of select() (the model equals the code on the extracted star programs: star_rows_agree). After '*' every term that
+   is not a Field is kept with its alias -- so its alias IS in the select list and, by clause_group / clause_order above, an
+   element carrying it must be rendered as the reference *)
+Theorem C13_star_keeps_aliased_terms :
+  forallb star_row_ok x_star_rows = true
+  /\ (forall ts, normalize_sel (SStar :: map ST ts) = TStar None :: filter (fun t => negb (is_fieldlike t)) ts)
+  /\ (forall ts t a, In t ts -> is_fieldlike t = false -> alias_of t = Some a ->
+        name_in (Some a) (map alias_of (normalize_sel (SStar :: map ST ts))) = true).
+Proof. exact (conj star_rows_agree (conj star_keeps_terms star_alias_selected)). Qed.
+Print Assumptions C13_star_keeps_aliased_terms.
